@@ -249,6 +249,8 @@ def _autoflow_strategy(tier):
     @st.composite
     def strat(draw):
         r = draw(C02.recipe(tier))
+        if r["kind"] == "alu" and not r.get("transpose_in") and r.get("const_row") is None and draw(st.integers(0, 3)) == 0:
+            r["neg_off"] = draw(st.integers(1, 3))
         if draw(st.integers(0, 2)) == 0:
             f = st.sampled_from([1, 2, 2, 3])
             if r["kind"] == "alu":
